@@ -200,6 +200,21 @@ fn main() {
             for w in xw.iter().take(20) { nprop += 1; prop.push(json!({"case": {"extra": w}, "why": [w], "key": format!("syntargets-extra:{}", w)})); }
             println!("{}", json!({"cases": cases.len() as u64 + xn, "prop_mismatch": nprop, "model_drift": 0, "prop": prop, "model": [], "samples": samples, "counts": {"helper_and_collection_cases": xn}}));
         }
+        ("replay", "deriveopts") => {
+            let cases = load_cases(&args[3]);
+            let mut prop: Vec<Value> = vec![];
+            let mut model: Vec<Value> = vec![];
+            let (mut nprop, mut nmodel, mut npanic) = (0usize, 0usize, 0usize);
+            let mut samples: Vec<Value> = vec![];
+            for (i, c) in cases.iter().enumerate() {
+                let (o, src, panicked) = vh::deriveopts::replay_one(c, i);
+                if panicked { npanic += 1; }
+                if i % (cases.len() / 3).max(1) == 0 && samples.len() < 3 { samples.push(json!({"derive": c["derive"], "declaration": src, "expect": c["expect"]})); }
+                if !o.prop.is_empty() { nprop += 1; if prop.len() < 5000 { let mut w = o.prop; w.truncate(3); prop.push(json!({"case": c, "why": w, "panicked": panicked, "key": format!("deriveopts:{}:{}", c["derive"].as_str().unwrap(), src.trim().replace('\n', " "))})); } }
+                if !o.model.is_empty() { nmodel += 1; if model.len() < 5 { model.push(json!({"case": c, "why": o.model})); } }
+            }
+            println!("{}", json!({"cases": cases.len(), "prop_mismatch": nprop, "model_drift": nmodel, "prop": prop, "model": model, "samples": samples, "counts": {"derive_panics": npanic}}));
+        }
         ("record", "accum") => {
             let seed: u64 = args[3].parse().unwrap();
             let runs: usize = args[4].parse().unwrap();
